@@ -293,8 +293,9 @@ func JudgeRotate(w *World, cfg RootConfig, reinit bool, state *structpb.Struct) 
 	cNB, cNA := ret.Current.NotBefore.AsTime(), ret.Current.NotAfter.AsTime()
 	nNB, nNA := ret.Next.NotBefore.AsTime(), ret.Next.NotAfter.AsTime()
 	if mintedCur {
-		if !near(cNB, res.T0.Add(cfg.NB), tol) || !near(cNA, res.T0.Add(cfg.L+cfg.NA), tol) {
-			return fail("mint/current-window", "new current is %v..%v, expected now%+v..now+%v", cNB.Sub(res.T0), cNA.Sub(res.T0), cfg.NB, cfg.L+cfg.NA)
+		// (durations are applied one after the other: their SUM may not fit a time.Duration)
+		if !near(cNB, res.T0.Add(cfg.NB), tol) || !near(cNA, res.T0.Add(cfg.L).Add(cfg.NA), tol) {
+			return fail("mint/current-window", "new current is %v..%v, expected now%+v..now+%v+%v", cNB.Sub(res.T0), cNA.Sub(res.T0), cfg.NB, cfg.L, cfg.NA)
 		}
 		if v := checkDer(ret.Current); v != nil {
 			return res, *v
@@ -312,9 +313,9 @@ func JudgeRotate(w *World, cfg RootConfig, reinit bool, state *structpb.Struct) 
 	}
 	if mintedNext {
 		shift := cNA.Sub(res.T0) / 2
-		if !near(nNB, res.T0.Add(cfg.NB+shift), tol) || !near(nNA, res.T0.Add(cfg.L+cfg.NA+shift), tol) {
-			return fail("mint/next-window", "new next is now%+v..now%+v, expected now%+v..now%+v (shift = half of current's remaining %v)",
-				nNB.Sub(res.T0), nNA.Sub(res.T0), cfg.NB+shift, cfg.L+cfg.NA+shift, cNA.Sub(res.T0))
+		if !near(nNB, res.T0.Add(cfg.NB).Add(shift), tol) || !near(nNA, res.T0.Add(cfg.L).Add(cfg.NA).Add(shift), tol) {
+			return fail("mint/next-window", "new next is now%+v..now%+v, expected now%+v%+v..now+%v+%v%+v (shift = half of current's remaining %v)",
+				nNB.Sub(res.T0), nNA.Sub(res.T0), cfg.NB, shift, cfg.L, cfg.NA, shift, cNA.Sub(res.T0))
 		}
 		if v := checkDer(ret.Next); v != nil {
 			return res, *v
